@@ -53,3 +53,11 @@
 ; number of bytes the token in progress needs from the collect buffer: the buffer always holds fewer
 (define-fun cborNeed ((ma Int) (mi Int) (lc Int)) Int
   (ite (or (= ma 0) (= ma 32) (= ma 3)) (cborWidth mi) (ite (= ma 250) 4 (ite (= ma 251) 8 (ite (or (= ma 96) (= ma 168)) lc 1)))))
+; RFC 7049: initial bytes that the supported subset must refuse at a value position
+; (tags, half floats, indefinite strings, reserved additional information 28..30, unassigned
+;  simple values, an indefinite-length integer, a break outside an indefinite container)
+(define-fun cborHeadRefused ((h Int)) Bool
+  (let ((mt (div h 32)) (ai (mod h 32)))
+    (or (= mt 6) (and (<= 28 ai) (<= ai 30))
+        (and (or (= mt 2) (= mt 3) (= mt 0) (= mt 1)) (= ai 31))
+        (and (= mt 7) (not (or (= ai 20) (= ai 21) (= ai 22) (= ai 23) (= ai 26) (= ai 27)))))))
